@@ -11,16 +11,22 @@ set_option linter.unusedSimpArgs false
 namespace H2V.Lemmas.ConnCtlP
 open H2V H2V.Model H2V.Model.Conn
 
-/-- the announced last-stream-id never increases and never disappears -/
-def GaLe (c c' : Conn) : Prop := ∀ m, gaLast c = some m → ∃ m', gaLast c' = some m' ∧ m' ≤ m
+/-- the announced last-stream-id never increases and never disappears; a recorded connection error
+    (`conn_error`) is never forgotten -/
+def GaLe (c c' : Conn) : Prop :=
+  (∀ m, gaLast c = some m → ∃ m', gaLast c' = some m' ∧ m' ≤ m) ∧
+  ((view c.streams).connErr.isSome = true → (view c'.streams).connErr.isSome = true)
 
-theorem GaLe.refl (c : Conn) : GaLe c c := fun m h => ⟨m, h, Nat.le_refl _⟩
+theorem GaLe.refl (c : Conn) : GaLe c c := ⟨fun m h => ⟨m, h, Nat.le_refl _⟩, id⟩
 theorem GaLe.trans {a b c : Conn} (h1 : GaLe a b) (h2 : GaLe b c) : GaLe a c := by
+  refine ⟨?_, fun h => h2.2 (h1.2 h)⟩
   intro m hm
-  obtain ⟨m1, e1, l1⟩ := h1 m hm
-  obtain ⟨m2, e2, l2⟩ := h2 m1 e1
+  obtain ⟨m1, e1, l1⟩ := h1.1 m hm
+  obtain ⟨m2, e2, l2⟩ := h2.1 m1 e1
   exact ⟨m2, e2, Nat.le_trans l2 l1⟩
-theorem GaLe.of_eq {c c' : Conn} (h : c'.goAway.goingAway = c.goAway.goingAway) : GaLe c c' := by
+theorem GaLe.of_eq {c c' : Conn} (h : c'.goAway.goingAway = c.goAway.goingAway)
+    (he : (view c'.streams).connErr = (view c.streams).connErr) : GaLe c c' := by
+  refine ⟨?_, fun hs => by rw [he]; exact hs⟩
   intro m hm
   exact ⟨m, by unfold gaLast at *; rw [h]; exact hm, Nat.le_refl _⟩
 
@@ -44,14 +50,14 @@ theorem SentOK.trans {a b c : Conn} {e1 e2 : List Ev} (h1 : SentOK a e1 b) (h2 :
     rw [sentG_append] at hf
     rcases List.mem_append.mp hf with hf | hf
     · obtain ⟨m1, e1', l1⟩ := h1.lower f hf
-      obtain ⟨m2, e2', l2⟩ := h2.mono m1 e1'
+      obtain ⟨m2, e2', l2⟩ := h2.mono.1 m1 e1'
       exact ⟨m2, e2', Nat.le_trans l2 l1⟩
     · exact h2.lower f hf
   · intro f hf m hm
     rw [sentG_append] at hf
     rcases List.mem_append.mp hf with hf | hf
     · exact h1.upper f hf m hm
-    · obtain ⟨m1, e1', l1⟩ := h1.mono m hm
+    · obtain ⟨m1, e1', l1⟩ := h1.mono.1 m hm
       exact Nat.le_trans (h2.upper f hf m1 e1') l1
   · rw [sentG_append, List.pairwise_append]
     refine ⟨h1.sorted, h2.sorted, ?_⟩
@@ -112,17 +118,17 @@ theorem sendPendingGoAwayT_sent (c : Conn) (h : GoAwayInv c) :
     cases st with
     | pending =>
       refine ⟨key c1 (some f) (by rw [e3]) (by rw [e3]) e4 (Or.inr hp.symm) (by rw [e3]; exact hp),
-        SentOK.quiet rfl (GaLe.of_eq (by rw [e3])), fun f' hf => ?_⟩
+        SentOK.quiet rfl (GaLe.of_eq (by rw [e3]) (by rw [e4])), fun f' hf => ?_⟩
       dsimp only at hf; rw [e3, hp] at hf; exact hf
     | err e =>
       refine ⟨key _ none (by simp [e3]) (by simp [e3]) (by simp [e4]) (Or.inl rfl) rfl,
-        SentOK.quiet rfl (GaLe.of_eq (by simp [e3])), fun f' hf => ?_⟩
+        SentOK.quiet rfl (GaLe.of_eq (by simp [e3]) (by simp [e4])), fun f' hf => ?_⟩
       simp at hf
     | ok =>
       have hga := h.pend f hp
       have hgl : gaLast c = some f.lastStreamId := by simp [gaLast, hga]
       refine ⟨key _ none (by simp [e3]) (by simp [e3]) (by simp [e4]) (Or.inl rfl) (by simp), ?_, fun f' hf => ?_⟩
-      · refine ⟨GaLe.of_eq (by simp [e3]), ?_, ?_, ?_⟩
+      · refine ⟨GaLe.of_eq (by simp [e3]) (by simp [e4]), ?_, ?_, ?_⟩
         · intro x hx
           simp [sentG] at hx
           subst hx
